@@ -409,8 +409,18 @@ def run_entry(case, R):
         R.undecided('C20.purity', 'call raised')
         return
     import copy
+    r1_raw = r1
     r1 = copy.deepcopy(r1)
     g1 = global_state()
+    # the caller owns what it was handed: scribbling over the returned arrays (unless they are views of the caller's own arguments)
+    # must not reach any later call - a result served again from a cache, or a stored table handed out by reference, shows up here
+    if not o.get('exempt'):
+        for _, ra in arrays_in(dict(result=r1_raw if not isinstance(r1_raw, np.ndarray) else [r1_raw])):
+            if ra.flags.writeable and ra.size and not any(np.may_share_memory(ra, a) for _, a in arrs):
+                try:
+                    ra[...] = (np.nan if ra.dtype.kind in 'fc' else (1 if ra.dtype.kind == 'b' else 77))
+                except (ValueError, TypeError):
+                    pass
     changed = [p for p, a in arrs if digest(a) != before[p] and p not in exempt]
     R.check('C20.purity', not changed, f'purity/modified/{name}', f'{name} modified its argument(s) {changed}', args=changed)
     keys = ['err', 'po', 'wf', 'mod'] + (['rng'] if seed is None else [])
